@@ -19,6 +19,9 @@ def monitor(case, il, sl):
     v = monitors.crash(tr, "c04-crash")
     if v:
         return v
+    v = monitors.shared_ids(tr, "c04-id-shared")
+    if v:
+        return v
     rr = refrun.RefRun(tr)
     v = monitors.stale_closeok(tr, rr)
     if v:
@@ -47,7 +50,13 @@ def gen(tier, seed):
 
 
 def suites(tier, seed):
-    return [Suite("reply-then-close", "machine", lambda: mg.reply_close_cases(Rng(seed + 77), kinds=("chan", "conn")), monitor=monitor, nontrivial=lambda c, il: True, canon=mg.canon_nondet, candidate_ok=mg.candidate_ok, exhaustive=True,
+    return [Suite("id-lifecycles", "machine", lambda: mg.id_lifecycle_cases(Rng(seed + 5), 2, 6 if tier == "quick" else 7, stride=3 if tier == "quick" else 1, offset=seed) + mg.id_lifecycle_cases(Rng(seed + 6), 3, 6, stride=41 if tier == "quick" else 5, offset=seed, prefix="j"),
+                  monitor=monitor, nontrivial=lambda c, il: True, canon=mg.canon_nondet, candidate_ok=mg.candidate_ok, shards=4,
+                  rule="channel_max 2: every sequence of 6 (thorough: 7) operations from {open automatic, open id 1, open id 2, close 1, close 2} (quick: every 3rd); channel_max 3: sequences of 6 sampled; then a call in flight on every open channel, replies arriving in reverse order: each reply reaches the channel that asked, ids are never shared"),
+            Suite("calls-at-api", "api", lambda: __import__("props.c12", fromlist=["x"]).gen(tier, seed + 4), monitor=__import__("props.c12", fromlist=["x"]).monitor,
+                  nontrivial=__import__("props.c12", fromlist=["x"]).nontrivial, canon=__import__("apigen").canon,
+                  rule="the public API over the real queue ends (api engine): every synchronous operation returns exactly the values of the reply pre-loaded for it, every nowait variant is sent with nowait set and returns without consuming a reply (so nothing is left over for the next call), a reply of the wrong type is FrameUnexpected; exact diff against the Lean Api model + the C12 oracle"),
+            Suite("reply-then-close", "machine", lambda: mg.reply_close_cases(Rng(seed + 77), kinds=("chan", "conn")), monitor=monitor, nontrivial=lambda c, il: True, canon=mg.canon_nondet, candidate_ok=mg.candidate_ok, exhaustive=True,
                   rule="directed: a call in flight on channel 1, a second channel busy; the reply and a server close arrive back to back (one read / two reads / handed over directly; reply taken before or after the close) for queue bounds 0, 1, 2, 16: both reach the caller in order, the other channel keeps working (channel close) or is told (connection close)"),
             Suite("calls", "machine", lambda: gen(tier, seed), monitor=monitor, nontrivial=nontrivial, canon=mg.canon_nondet, candidate_ok=mg.candidate_ok,
                   rule="random sessions with 2-6 channels issuing calls (every kind of generic reply, consume, get, cancel, channel close) whose replies the scripted server sends in arbitrary cross-channel order, directly or through the stream; includes crossing closes and id reuse")]
